@@ -1,5 +1,3 @@
-use std::ops::{AddAssign, MulAssign};
-
 use serde::de::{self, DeserializeSeed, MapAccess, SeqAccess, Visitor};
 use serde::{forward_to_deserialize_any, Deserialize};
 
@@ -75,10 +73,10 @@ impl<'de> Deserializer<'de> {
 
     fn parse_unsigned<T>(&mut self) -> Result<T>
     where
-        T: AddAssign<T> + MulAssign<T> + From<u8>,
+        T: TryFrom<u64>,
     {
         let mut int = match self.next_char()? {
-            ch @ '0'..='9' => T::from(ch as u8 - b'0'),
+            ch @ '0'..='9' => (ch as u8 - b'0') as u64,
             _ => {
                 return Err(DeserializeError::ExpectedInteger);
             }
@@ -87,11 +85,14 @@ impl<'de> Deserializer<'de> {
             match self.input.chars().next() {
                 Some(ch @ '0'..='9') => {
                     self.input = &self.input[1..];
-                    int *= T::from(10);
-                    int += T::from(ch as u8 - b'0');
+                    // a number that does not fit is an error, not an overflow
+                    int = int
+                        .checked_mul(10)
+                        .and_then(|v| v.checked_add((ch as u8 - b'0') as u64))
+                        .ok_or(DeserializeError::ExpectedInteger)?;
                 }
                 _ => {
-                    return Ok(int);
+                    return T::try_from(int).map_err(|_| DeserializeError::ExpectedInteger);
                 }
             }
         }
